@@ -572,7 +572,8 @@ package quickfix
 // and whose first field carries the key (so parsing field number lim does not disturb it)
 //@ spec inwindow(m *FieldMap, fields []TagValue, lim int) bool = forall t Tag :: has(m.tagLookup, t) ==> arr(m.tagLookup[t]) == arr(fields) && off(fields) <= off(m.tagLookup[t]) && off(m.tagLookup[t]) < off(fields) + lim && len(m.tagLookup[t]) >= 1 && m.tagLookup[t][0].tag == t
 
-//@ func parseGroup [C09,C13]
+//@ func parseGroup [C09,C11,C13]
+//@   atcall add [C11] @section (arg0 == &mp.msg.Header.FieldMap ==> len(arg1) == 1 && (isheadertag(arg1[0].tag) || (mp.transportDataDictionary != nil && has(mp.transportDataDictionary.Header.Fields, arg1[0].tag)))) && (arg0 == &mp.msg.Trailer.FieldMap ==> len(arg1) == 1 && (istrailertag(arg1[0].tag) || (mp.transportDataDictionary != nil && has(mp.transportDataDictionary.Trailer.Fields, arg1[0].tag))))
 //@   lemmas none
 //@   replay ParseMessageWithDataDictionary(NewMessage(), bytes.NewBuffer(${mp.rawBytes}), nil, nil)
 //@   requires mp != nil && mp.msg != nil && mapsok(mp.msg) && len(tags) >= 1
@@ -779,3 +780,46 @@ package quickfix
 //@   ensures @safe msgsafe(m)
 //@   ensures @wf old(msgwf(m)) ==> msgwf(m)
 //@   modifies m.Header.tags, heap E.quickfix.Tag, m.Header.tagLookup[*], m.Header.tagLookup[9][0].*, m.Trailer.tags, m.Trailer.tagLookup[*], m.Trailer.tagLookup[10][0].*, fresh E.uint8, fresh H.quickfix.TagValue.*, fresh H.bytes.Buffer.*, fresh P.quickfix.FIXInt
+
+// ---- parser.go: the stream reader (C09: no byte stream makes it panic) ---------------------------------------------
+//@ spec pwf(p *parser) bool = p != nil && p.reader != nil && valid(p.buffer) && valid(p.bigBuffer) && cap(p.buffer) <= len(p.bigBuffer) && cap(p.bigBuffer) == len(p.bigBuffer)
+
+//@ func (p *parser) readMore [C09]
+//@   requires pwf(p)
+//@   ensures @w1 p.reader == old(p.reader) && p.reader != nil
+//@   ensures @w2 valid(p.bigBuffer)
+//@   ensures @w3 valid(p.buffer)
+//@   ensures @w4 cap(p.buffer) <= len(p.bigBuffer)
+//@   ensures @wf pwf(p) && p.reader == old(p.reader)
+//@   ensures @grow result0 >= 0 && len(p.buffer) == old(len(p.buffer)) + result0
+
+//@ func (p *parser) findIndexAfterOffset [C09]
+//@   requires @wf pwf(p)
+//@   requires @off offset >= 0
+//@   ensures @wf pwf(p) && p.reader == old(p.reader)
+//@   ensures @found result1 == nil ==> offset <= result0 && result0 + len(delim) <= len(p.buffer)
+//@   loop 1 invariant pwf(p) && p.reader == old(p.reader)
+
+//@ func (p *parser) findIndex [C09]
+//@   requires pwf(p)
+//@   ensures @wf pwf(p) && p.reader == old(p.reader)
+//@   ensures @found result1 == nil ==> 0 <= result0 && result0 + len(delim) <= len(p.buffer)
+
+//@ func (p *parser) findStart [C09]
+//@   requires pwf(p)
+//@   ensures @wf pwf(p) && p.reader == old(p.reader)
+//@   ensures @found result1 == nil ==> 0 <= result0 && result0 + 2 <= len(p.buffer)
+
+//@ func (p *parser) findEndAfterOffset [C09]
+//@   requires pwf(p) && offset >= 0
+//@   ensures @wf pwf(p) && p.reader == old(p.reader)
+//@   ensures @found result1 == nil ==> offset < result0 && result0 <= len(p.buffer)
+
+//@ func (p *parser) jumpLength [C09]
+//@   requires pwf(p)
+//@   ensures @wf pwf(p) && p.reader == old(p.reader)
+//@   ensures @forward result1 == nil ==> result0 >= 0
+
+//@ func (p *parser) ReadMessage [C09]
+//@   requires pwf(p)
+//@   ensures @wf pwf(p)
